@@ -152,11 +152,15 @@ func (e *Engine) callStatic(st *State, fn *ssa.Function, args []Val, bindings []
 	if !strings.HasPrefix(pkg, "perun.network/go-perun") && !strings.HasPrefix(pkg, "govctest") && !inlineExternal[name] && !strings.HasPrefix(pkg, "polycry.pt/poly-go/math/big") {
 		panic(e.unsupported("unclassified external callee: " + name))
 	}
-	// recursion guard
+	// recursion guard: re-entrant inlining (perunio.Decode -> T.Decode -> perunio.Decode) is fine, unbounded recursion is not
+	depth := 0
 	for _, fr := range st.Frames {
 		if fr.Fn == fn {
-			panic(e.unsupported("recursive call without contract: " + name))
+			depth++
 		}
+	}
+	if depth >= 6 {
+		panic(e.unsupported("recursive call without contract: " + name))
 	}
 	e.runFunction(st, fn, args, bindings, k)
 }
